@@ -6,13 +6,14 @@ Open Scope Z_scope.
 
 (* For every configuration, state, input and whatever the decoders do: the call either
    - found the timings equal to the held key (a repeat: nothing returned), or
-   - returns exactly the code one possible decoder produced in this call, every decoder asked before having rejected, or
+   - returns exactly the code one possible decoder produced in this call, every decoder asked before having rejected
+     (or a code stored on a possible decoder that equals the input, every decoder asked before having rejected), or
    - returns nothing because a decoder signalled a repeat marker, or because every decoder it may use was asked and rejected.
    In particular: if some possible decoder is asked and accepts, its code is returned unchanged. *)
-Theorem C11_dispatch_explained : forall (PS : Type) (pdecode : nat -> PS -> PS * outcome) cfg freq hm ps st s' st' r,
-  dispatch (TPS PS) (tdecode PS pdecode) cfg freq hm (ps, []) st = (s', st', r) ->
+Theorem C11_dispatch_explained : forall (PS : Type) (pdecode : nat -> PS -> PS * outcome) saved cfg freq hm ps st s' st' r,
+  dispatch (TPS PS) (tdecode PS pdecode) saved cfg freq hm (ps, []) st = (s', st', r) ->
   (hm = true /\ r = RNone /\ snd s' = [] /\ exists lc, last_code st = Some lc /\ possible cfg freq (c_pid lc) = true)
-  \/ explains cfg freq (seq 0 (length cfg)) (snd s') r.
+  \/ explains saved cfg freq (seq 0 (length cfg)) (snd s') r.
 Proof. exact dispatch_explained. Qed.
 
 Print Assumptions C11_dispatch_explained.
